@@ -100,11 +100,13 @@ CHECKS = {
   "text": "Theorems in integer ticks for every score whose parts last their chord: get_melody_between never fails and lasts exactly the "
           "overlap of the window with the melody for every position of the cut points; a chord window keeps all parts as long as the new chord; "
           "the window [a,b) of a score lasts min(b,total)-a (general clock form covers every chord-boundary coincidence); cutting at t and "
-          "re-joining gives back the total duration; repeat_until_duration(d) lasts exactly d. The CONTENT clauses - sounding notes of the "
-          "window = the original ones starting in it, clipped and shifted, and re-joining reproduces the original sound - are evaluated on "
-          "the implementation by the oracle (render both sides with get_notes) and tied to the model by correspondence; they are not yet theorems.",
-  "note": "Trusted: Coq kernel; adapters and tick scaling of cut points. Partial: window content / re-join sound are oracle + correspondence "
-          "only. Relative notes whose reference is cut away are outside the window-content oracle (the statement cannot apply).",
+          "re-joining gives back the total duration; repeat_until_duration(d) lasts exactly d. Content of a window (written notes): "
+          "get_melody_between / get_chord_between return exactly the notes overlapping [a,b), in order, each clipped to the window, a note "
+          "already sounding at a becoming a continuation, every other kept note keeping pitch, kind and dynamics (a map over the part's "
+          "timeline, no loop state). That the SOUNDING notes of the window are the clipped original ones and that re-joining reproduces the "
+          "original sound is evaluated on the implementation by the oracle (render both sides with get_notes) and tied by correspondence.",
+  "note": "Trusted: Coq kernel; adapters and tick scaling of cut points. Partial: the score-level content (chord selection + per-chord windows "
+          "composed) and the re-join sound are oracle + correspondence only; the content theorems need strictly positive note durations. Relative notes whose reference is cut away are outside the window-content oracle (the statement cannot apply).",
  },
  "C16": {
   "text": "Theorems over Q for each of the 15 tags, every duration d >= 0 and every neighbouring-note context: the pieces of the figure sum "
